@@ -379,7 +379,10 @@ def run_check(plugin, tier, seed, replay=None):
             say("translator broken for %s: %s" % (name, err))
     pins = translate.check_pins(pid)
     for site, exp, act in pins:
-        say("pinned function changed: %s (%s -> %s): hand model possibly stale, correspondence budget x4"
+        # the hand model is tied to the source by this hash AND by the correspondence run; with the hash gone the
+        # tie is not established: a broken obligation (reported even if the search finds no failing input)
+        broken.append({"kind": "PIN_CHANGED", "what": site, "detail": "hash %s -> %s" % (exp, act)})
+        say("pinned function changed: %s (%s -> %s): the hand model may be stale; correspondence budget x4"
             % (site, exp, act))
     for cls, detail in plugin.static_checks():
         broken.append({"kind": "STATIC_FACT_BROKEN", "what": cls, "detail": detail})
